@@ -3,7 +3,7 @@
 # builds, existing suite passes with it, demo fails with it and passes without it. Writes <seed-dir>/confirm.log
 export GOFLAGS=-mod=mod GOPROXY=off GOSUMDB=off GOTOOLCHAIN=local
 seed="$1"; id=$(basename "$seed"); wt=/tmp/confirm-$id
-base=${BASE:-d2d4c7c}
+base=${BASE:-HEAD}
 log="$seed/confirm.log"; : > "$log"
 git -C /repo worktree add -q --detach "$wt" "$base" || exit 2
 cleanup() { git -C /repo worktree remove --force "$wt" >/dev/null 2>&1; }
